@@ -427,6 +427,41 @@ def install(eng):
     def _vec_len(call):
         return eng.vec_len(vec_of(call, call.argv[0]))
 
+    @on(r"^Vec::(swap_remove|remove)$")
+    def _vec_remove(call):
+        v = vec_of(call, call.argv[0])
+        i = eng._concrete(call.argv[1])
+        if v.base is not None or i is None:
+            raise Unsupported("remove on a Vec with unknown prefix / symbolic index")
+        if i >= len(v.items):
+            return Panic(f"{call.fr.fn.short}: removal index (is {i}) should be < len (is {len(v.items)})")
+        item = v.items[i]
+        if call.norm.endswith("swap_remove"):
+            last = v.items.pop()
+            if i < len(v.items):
+                v.items[i] = last
+        else:
+            del v.items[i]
+        return eng.force(item)
+
+    @on(r"^Vec::pop$")
+    def _vec_pop(call):
+        v = vec_of(call, call.argv[0])
+        if v.items:
+            return mk_enum("Option", "Some", eng.force(v.items.pop()))
+        if v.base is None:
+            return mk_enum("Option", "None")
+        raise Unsupported("pop of opaque vec")
+
+    @on(r"^Vec::insert$")
+    def _vec_insert(call):
+        v = vec_of(call, call.argv[0])
+        i = eng._concrete(call.argv[1])
+        if v.base is not None or i is None or i > len(v.items):
+            raise Unsupported("insert on a Vec with unknown prefix / symbolic index")
+        v.items.insert(i, Cell(call.argv[2], None, f"vec[{i}]"))
+        return UNIT
+
     @on(r"^<Vec as Clone>::clone$")
     def _vec_clone(call):
         v = vec_of(call, call.argv[0])
@@ -629,6 +664,13 @@ def install(eng):
             v = v.cell.val
         s.tag = ("string", v.s if isinstance(v, Str) else getattr(v, "tag", None))
         return s
+
+    @on(r"^<Range as Default>::default$")
+    def _range_default(call):
+        a = Adt("Range", None)
+        a.fields[(None, 0)] = Cell(Int(z3.BitVecVal(0, 64), 64, False), "usize", "range.start")
+        a.fields[(None, 1)] = Cell(Int(z3.BitVecVal(0, 64), 64, False), "usize", "range.end")
+        return a
 
     @on(r"^<.* as Default>::default$")
     def _default(call):
